@@ -215,6 +215,10 @@ class OutputFiles:
         self._qualities = qualities
         self._interleaved = interleaved
 
+    def uses_path(self, path) -> bool:
+        """Return whether the path is one of the files opened for writing"""
+        return _normalized(path) in self._used_paths
+
     def open_text(self, path):
         normalized = _normalized(path)
         if normalized in self._used_paths:
